@@ -2,21 +2,31 @@
 #include "core/directives_include.h"
 #include "cmd_prog.h"
 #include "cmd_isa.h"
+#include "cmd_isa_all.h"
 #include "cmd_cond.h"
 #include "cmd_sym.h"
 #include "cmd_sim.h"
 #include "cmd_mem.h"
 #include "cmd_fileio.h"
 #include "cmd_safe.h"
+#include "cmd_det.h"
+#include "cmd_util.h"
+#include "cmd_listing.h"
+#include "cmd_macro.h"
 
 static void register_all()
 {
   register_prog();
   register_isa();
+  register_isa_all();
   register_cond();
   register_sym();
   register_sim();
   register_mem();
   register_fileio();
   register_safe();
+  register_det();
+  register_util();
+  register_listing();
+  register_macro();
 }
